@@ -6,6 +6,8 @@ import shutil
 import warnings
 import zipfile
 
+import sys
+
 import numpy as np
 
 from .. import common, gen_all, curves, fits
@@ -518,4 +520,4 @@ def check(run):
 
 
 def replay(rec):
-    return True
+    return common.replay_by_rerun(sys.modules[__name__], rec)
